@@ -166,3 +166,42 @@ func VF_C15_CompareAlphabet() {
 	vf.Assert(sgn(x.Compare(y)) == want, "C15 equal clocks are ordered by the byte-wise order of the client identifiers (timestamps)")
 	vf.Assert(sgn(ox.Compare(oy)) == want, "C15 equal clocks are ordered by the byte-wise order of the client identifiers (operation ids)")
 }
+
+// VF_C15_ClockMagnitudes (C15): the clock step at the magnitudes where machine
+// arithmetic changes character - around the 31/32-bit limits, around 2^53 (the
+// end of exact float64 integers) and around the 62/63-bit limits - for every
+// pair (local clock, remote clock) taken from those neighbourhoods.  Concrete
+// values (the symbolic VF_C15_Clock covers the whole range while the step is
+// integer arithmetic; this one stays fast whatever arithmetic the step uses).
+func VF_C15_ClockMagnitudes() {
+	centres := []uint64{0, 1 << 31, 1 << 32, 1 << 53, 1 << 62}
+	pick := func(tag string) uint64 {
+		c := centres[vf.Choice(tag+".centre", len(centres))]
+		d := vf.Choice(tag+".offset", 5) // -2 .. +2
+		if c == 0 && d < 2 {
+			vf.Assume(false)
+		}
+		return c + uint64(d) - 2
+	}
+	l0, other := pick("local"), pick("remote")
+	id := &OperationID{Era: 0, Lamport: l0, CUID: "AAAAAAAAAAAAAAAA", Seq: 7}
+	r := id.SyncLamport(other)
+	vf.Reach("sync")
+	vf.Assert(r == id.Lamport && id.Seq == 7, "C15 sync does not touch the sequence")
+	vf.Assert(id.Lamport >= other && id.Lamport >= l0, "C15 clock never decreases on sync")
+	n := id.Next()
+	vf.Assert(n.Lamport > other && n.Lamport > l0, "C15 next local identifier is ordered after every applied operation")
+	m := id.Next()
+	vf.Assert(m.Lamport > n.Lamport && m.Seq == n.Seq+1, "C15 two operations of one client never share an identifier")
+	rts := &Timestamp{Era: 0, Lamport: other, CUID: "ZZZZZZZZZZZZZZZZ"}
+	vf.Assert(n.GetTimestamp().Compare(rts) > 0 && rts.Compare(n.GetTimestamp()) < 0, "C15 new local timestamp compares greater than the applied one")
+	x := &OperationID{Era: 0, Lamport: l0, CUID: "AAAAAAAAAAAAAAAA"}
+	y := &OperationID{Era: 0, Lamport: other, CUID: "AAAAAAAAAAAAAAAA"}
+	want := 0
+	if l0 < other {
+		want = -1
+	} else if l0 > other {
+		want = 1
+	}
+	vf.Assert(sgn(x.Compare(y)) == want, "C15 identifiers of one client are ordered by their clocks")
+}
